@@ -184,12 +184,20 @@ def do_step(base, st, deq_results):
                             {"Authorization": "Bearer " + PTOK, "Content-Type": "application/json"})
             return s, _js(d)
         # lease ops
-        ref = st["ref"]
-        items = deq_results[ref[0]] if ref[0] < len(deq_results) else []
-        if ref[1] >= len(items):
+        if "by_marker" in st:
+            # the latest lease handed out for the message with this marker
             lease = "lease_0000000000000000"
+            for items in deq_results:
+                for it in items:
+                    if (it.get("headers") or {}).get("X-Marker") == st["by_marker"]:
+                        lease = it["lease_id"]
         else:
-            lease = items[ref[1]]["lease_id"]
+            ref = st["ref"]
+            items = deq_results[ref[0]] if ref[0] < len(deq_results) else []
+            if ref[1] >= len(items):
+                lease = "lease_0000000000000000"
+            else:
+                lease = items[ref[1]]["lease_id"]
         st["_lease"] = lease
         if st["op"] == "ack":
             path, body = "/pull/p/ack", {"lease_id": lease}
@@ -642,8 +650,8 @@ def main(ctx, replay):
     # the trim must take dead messages only
     workloads.append([{"op": "ingress", "route": "pull", "marker": "keep1"}, {"op": "ingress", "route": "pull", "marker": "dd1"},
                       {"op": "ingress", "route": "pull", "marker": "dd2"}, {"op": "ingress", "route": "pull", "marker": "dd3"},
-                      {"op": "dequeue", "batch": 3}, {"op": "nack", "ref": [0, 0]}, {"op": "dequeue", "batch": 3},
-                      {"op": "dead", "ref": [0, 1]}, {"op": "dead", "ref": [0, 2]}, {"op": "dead", "ref": [1, 1]},
+                      {"op": "dequeue", "batch": 3}, {"op": "nack", "by_marker": "keep1"}, {"op": "dequeue", "batch": 3},
+                      {"op": "dead", "by_marker": "dd1"}, {"op": "dead", "by_marker": "dd2"}, {"op": "dead", "by_marker": "dd3"},
                       {"op": "sleep", "seconds": 1.3}, {"op": "ingress", "route": "pull", "marker": "keep2"}, {"op": "dequeue", "batch": 1}])
     port0 = 12000 + (os.getpid() % 18) * 1000       # below the ephemeral port range
     evaluations = 0
